@@ -76,6 +76,15 @@ def processLine (line : String) : String :=
   match Json.parse line with
   | .error e => s!"BADLINE {e}"
   | .ok j =>
+    if str j "k" == "longpoll" then
+      -- a consumer that was already waiting when the message became due (with at least a second of its wait left) must get it
+      let due := int j "dueAfterStartMs"; let maxWait := int j "maxWaitMs"
+      if due + 1000 ≤ maxWait && !(bool j "got") then
+        s!"PROP C05 due-message-not-handed-to-a-waiting-consumer scenario={str j "scenario"} backend={str j "backend"} due-after={due}ms waited={int j "returnedAfterMs"}ms"
+      else if bool j "got" && int j "afterDueMs" < -2 then
+        s!"PROP C05 message-handed-out-before-it-was-due scenario={str j "scenario"} backend={str j "backend"} early-by={-(int j "afterDueMs")}ms"
+      else "ok"
+    else
     if str j "k" != "conc" then "ok" else
     match concCheck (arr j "events") with
     | some c => s!"PROP C03,C04 {c} run={nat j "run"} backend={str j "backend"}"
